@@ -107,8 +107,7 @@ theorem OfRun.terminal_by_drop (P : Params) (toi maxSize : Nat) (ops : List Op) 
 theorem OfRun.complete_only_when_all_written (P : Params) (toi maxSize : Nat) (ops : List Op) (st' : St)
     (h : run P (St.new toi maxSize) ops = .ok st') (hc : ¬ noComplete (drop st').out) :
     ((drop st').cenc = some .null → ∃ T, (drop st').tl = some T ∧ (drop st').written.length = T) ∧
-    (∀ m, (drop st').md5 = some m → (drop st').md5Check = true → (drop st').tl ≠ some 0 →
-        P.md5 (drop st').written = m) ∧
+    (∀ m, (drop st').md5 = some m → (drop st').md5Check = true → P.md5 (drop st').written = m) ∧
     (∀ n, (drop st').cl = some n → (drop st').tl ≠ some 0 → (drop st').written.length = n) := by
   have hi := inv_run P _ ops (inv_new toi maxSize) h
   have hj := jinv_drop st' hi (jinv_run P _ ops (inv_new toi maxSize) (jinv_new P toi maxSize) h)
@@ -127,7 +126,7 @@ theorem OfRun.complete_only_when_all_written (P : Params) (toi maxSize : Nat) (o
 def codec0 : Codec := ⟨fun _ _ => false, fun _ _ _ => none, fun _ _ _ _ _ => none, fun _ _ _ => false, fun _ _ _ => none⟩
 
 def P0 (openOk : Bool) : Params :=
-  { codec := codec0, dzRead := fun _ _ _ => ⟨0, .err⟩, dzFuel := 10, md5 := fun _ => "",
+  { codec := codec0, dzRead := fun _ _ _ => ⟨0, .err⟩, dzFuel := fun _ => 10, md5 := fun _ => "",
     env := ⟨fun _ => ⟨.store, true, openOk, fun _ => true⟩⟩ }
 
 def e0 : FileEntry :=
@@ -189,8 +188,7 @@ theorem complete_only_when_all_written (P : Params) (toi maxSize : Nat) (ops : L
     ∃ st', run P (St.new toi maxSize) ops = .ok st' ∧
      ((¬ noComplete (drop st').out) →
       (((drop st').cenc = some .null → ∃ T, (drop st').tl = some T ∧ (drop st').written.length = T) ∧
-    (∀ m, (drop st').md5 = some m → (drop st').md5Check = true → (drop st').tl ≠ some 0 →
-        P.md5 (drop st').written = m) ∧
+    (∀ m, (drop st').md5 = some m → (drop st').md5Check = true → P.md5 (drop st').written = m) ∧
     (∀ n, (drop st').cl = some n → (drop st').tl ≠ some 0 → (drop st').written.length = n))) :=
   F.elim toi (fun st' h hc => OfRun.complete_only_when_all_written P toi maxSize ops st' h hc)
 
